@@ -300,3 +300,20 @@ package sqlx
 //@   ensures same-schema-is-never-named: b.Schema != nil && *b.Schema == "" && (gvcSchemaName(childT.Schema) == "" || gvcSchemaName(parentT.Schema) == "" || gvcSchemaName(childT.Schema) == gvcSchemaName(parentT.Schema)) ==>
 //@           gvcQualified1(b, parentT.Schema, parentT.Name, old(gvcOut(b)), old(GvcInit), old(GvcLast))
 //@   ensures default-uses-own-schema: b.Schema == nil ==> gvcQualified1(b, parentT.Schema, parentT.Name, old(gvcOut(b)), old(GvcInit), old(GvcLast))
+
+// ---------------------------------------------------------------------------------------
+// sqlx.Has(attrs, &x) for x a schema.GeneratedExpr (used by C05 and C18): whether the attribute
+// list carries a generated-expression attribute, and its Type (uninterpreted functions of the
+// list); for any other target type nothing is known about the result.
+//@ spec func SpecHasGen(elements any) bool { panic("uninterpreted") }
+//@ func SpecHasGen(elements any) (b bool)
+//@   trusted
+//@   pure
+//@ spec func SpecGenType(elements any) string { panic("uninterpreted") }
+//@ func SpecGenType(elements any) (s string)
+//@   trusted
+//@   pure
+//@ func Has(elements, target any) (ok bool)
+//@   trusted
+//@   modifies struct(schema.GeneratedExpr)
+//@   ensures GvcIs[*schema.GeneratedExpr](target) ==> ok == SpecHasGen(elements) && (ok ==> target.(*schema.GeneratedExpr).Type == SpecGenType(elements))
